@@ -43,6 +43,10 @@ TraceNext ==
               /\ deleted' = [k \in 1 .. NKeys |-> 0] /\ hist' = <<>> /\ lastpos' = Cap /\ open' = TRUE
               /\ bad' = {} /\ reins' = {}
          [] e.a = "del" -> AppendBatch(e.ks) /\ bad' = {} /\ reins' = reins \ {e.ks[i] : i \in DOMAIN e.ks}
+         \* each key inserted and removed inside one flushed batch (the inserts take sequences too; their relative
+         \* order to the tombstones does not matter here)
+         [] e.a = "insdel" -> AppendBatchFrom(e.ks, seq + Len(e.ks)) /\ bad' = {}
+                              /\ reins' = reins \ {e.ks[i] : i \in DOMAIN e.ks}
          [] e.a = "reins" ->
               /\ deleted' = [deleted EXCEPT ![e.k] = 0] /\ seq' = seq + 1 /\ reins' = reins \cup {e.k}
               /\ UNCHANGED <<ring, slot, bufPage, buf, hist, lastpos, open>> /\ bad' = {}
